@@ -122,6 +122,8 @@ static bool gen_c09(uint64_t seed, const std::string &tier, uint64_t i, Plan &p)
     p.knobs.erase("smtproutes"); Json zone = Json::obj(); Json fail = Json::obj(); fail.set("r.example", r.chance(0.6) ? "soft" : "hard"); zone.set("fail", fail); p.knobs.set("zone", zone);
     lab = "dns " + fail.gets("r.example");
   }
+  // the canonical-name lookup for the sender's or a recipient's domain fails for the moment: nothing is sent, temporary failure
+  if (r.chance(0.03)) { Json z = p.knobs.has("zone") ? p.knobs["zone"] : Json::obj(); if (!p.knobs.has("zone")) { Json a = Json::obj(); Json al = Json::arr(); al.push((long long)0x0a010101); a.set("r.example", al); z.set("a", a); } Json fl = z.has("fail") ? z["fail"] : Json::obj(); fl.set("x.example", "soft"); z.set("fail", fl); p.knobs.set("zone", z).set("sender", "s@x.example"); lab += " +cname-soft"; }
   if (r.chance(0.08)) { Fault f; f.actor = "qmail-remote"; f.call = C_MALLOC; f.nth = (int)r.range(1, 80); f.kind = "null"; p.faults.push_back(f); }
   add_short_io(r, p, "qmail-remote", 0.2, false);
   p.label = lab + " rcpts=" + std::to_string(nr);
@@ -208,7 +210,8 @@ static bool gen_c17_inject(Rng &r, Plan &p) {
   std::string fsender = (r.chance(0.6) ? hostile_box() : std::string("env")) + "@sender.example";
   if (mode == 4) { args.push("-f" + fsender); }
   p.knobs.set("args", args);
-  Json ex = Json::obj(); Json wr = Json::arr(); for (auto &w : want) wr.push(w); ex.set("rcpts", wr); if (mode == 4) ex.set("sender", fsender); p.knobs.set("expect", ex);
+  Json ex = Json::obj(); Json wr = Json::arr(); for (auto &w : want) wr.push(w); ex.set("rcpts", wr); if (mode == 4) ex.set("sender", fsender);
+  p.knobs.set("expect", ex);
   // allocation failures while the header is parsed and rewritten (the token arrays are the large allocations)
   if (r.chance(0.2)) { Fault f; f.actor = "qmail-inject"; f.call = C_MALLOC; f.nth = (int)r.range(1, 120); f.kind = "null"; p.faults.push_back(f); }
   if (mode >= 4 && !has_bcc && p.faults.empty() && r.chance(0.7)) p.knobs.set("reinject", true);  // Bcc is deleted from the stored header, so its addresses cannot come back
